@@ -6,9 +6,13 @@ different type sets, for all (L, B <= L), with and without key, for device count
 device handles: only its length is used).  The recorder reads the sample index back from every returned block
 (device axis flattened) and TLC accepts the event iff one duplicate-free order explains every multi-image and
 every type, with floor(L/B) batches of B, identity order without key, and the same order as with one device.
-Also validated: the MakeBatches events of real ml.train runs (C19's recorder).
+Also validated: the MakeBatches events of real ml.train runs (C19's recorder), and recorded runs of
+ml.map_loss_in_batches / ml.map_plus_loss_in_batches on 1, 2 and 4 (forced host-platform) devices against the
+EvalBatches / EvalStep / EvalReturn actions (design: MC_EvalLoop, EvalInv): batches aligned, every batch evaluated
+once in order on the given model in inference mode, device mean and batch mean exact, mapped output in batch order.
 """
 import itertools
+import os
 import random
 
 import numpy as np
@@ -64,6 +68,81 @@ def record_chunk(chunk):
         cfg = dict(kind="epochs", monitor="train", patience=0, mindelta=0, epochs=1, L=L, B=B, keyed=key is not None,
                    hasval=False, LV=B, start="batching")
         out.append({"tid": tid, "cfg": cfg, "events": events, "n_mi": n_mi, "ndev": ndev})
+    return out
+
+
+def eval_chunk(chunk):
+    """Recorded executions of ml.map_loss_in_batches / ml.map_plus_loss_in_batches (and, inside them, get_batches and
+    evaluate, both looked up as module globals: swapped for logging wrappers for the duration of the call).  Runs in a
+    worker whose XLA host platform exposes 4 CPU devices, so the pmap over 1, 2 or 4 devices is a real one."""
+    import equinox as eqx
+    import jax
+    import jax.numpy as jnp
+    import jax.random as jr
+    import ginjax.ml.training as T
+    from harness import trainrec
+
+    class Ident(eqx.Module):
+        inference: bool = False                      # eqx.nn.inference_mode flips every field of this name
+
+        def __call__(self, x, aux_data=None):
+            return x, aux_data
+    devs = jax.devices()
+    if len(devs) < 4:
+        raise RuntimeError("the forced host-platform device count did not take effect (%d devices)" % len(devs))
+    out = []
+    for tid, L, B, keyseed, ndev, withmap in chunk:
+        X, Y = trainrec.token_dataset(L)
+        model = Ident()
+        key = None if keyseed is None else jr.PRNGKey(keyseed)
+        events = []
+        real_gb, real_ev = T.get_batches, T.evaluate
+
+        def map_and_loss(m, x, y, aux, ndev=ndev, withmap=withmap):     # per device: x is (B/ndev, c, spatial, tensor)
+            first = next(iter(x.values()))
+            idx = first.reshape((first.shape[0], -1))[:, 0]
+            loss = ndev * jnp.sum(idx) + (0.0 if m.inference else 0.25)
+            return (loss, aux, m(x)[0]) if withmap else (loss, aux)
+
+        def get_batches(multi_images, batch_size, rand_key, devices=None):
+            res = real_gb(multi_images, batch_size, rand_key, devices)
+            obs = []
+            for mi_i, blist in enumerate(res):
+                for b_i, mi in enumerate(blist):
+                    for (k, p), block in mi.items():
+                        idx, _ = trainrec._idx_of(block, batch_size)
+                        obs.append({"mi": mi_i + 1, "type": [k, p], "batch": b_i + 1, "idx": idx or [-1] * batch_size})
+            events.append({"ev": "EvalBatches", "obs": obs})
+            return res
+
+        def evaluate(mdl, mal, x, y, aux_data=None, return_map=False):
+            bsz = int(np.prod(next(iter(x.values())).shape[:2]))
+            xi = [trainrec._idx_of(b, bsz)[0] or [-1] * bsz for b in x.values()]
+            yi = [trainrec._idx_of(b, bsz)[0] or [-1] * bsz for b in y.values()]
+            res = real_ev(mdl, mal, x, y, aux_data, return_map)
+            loss = float(res[0] if return_map else res)
+            frac = loss - np.floor(loss)
+            events.append({"ev": "EvalStep", "x": xi, "y": yi, "vin": 0 if mdl is model else -1,
+                           "inference": bool(abs(frac) < 1e-3), "loss": int(np.floor(loss + 1e-3))})
+            return res
+        T.get_batches, T.evaluate = get_batches, evaluate
+        try:
+            fn = T.map_plus_loss_in_batches if withmap else T.map_loss_in_batches
+            res = fn(map_and_loss, model, X, Y, B, key, devs[:ndev], None)
+            nb = L // B
+            tot = float(res[0] if withmap else res) * nb
+            ev = {"ev": "EvalReturn", "lossTimesNB": int(round(tot)) if abs(tot - round(tot)) < 1e-2 else -1, "map": []}
+            if withmap:
+                ev["map"] = [trainrec._idx_of(b, nb * B)[0] or [-1] * (nb * B) if b.shape[0] == nb * B else [-2] for b in res[1].values()]
+                ev["map_types"] = [list(k) for k in res[1].keys()]
+            events.append(ev)
+        except Exception as ex:
+            events.append({"ev": "Raised", "what": "%s: %s" % (type(ex).__name__, str(ex)[:200])})
+        finally:
+            T.get_batches, T.evaluate = real_gb, real_ev
+        cfg = dict(kind="eval", monitor="train", patience=0, mindelta=0, epochs=0, L=L, B=B, keyed=key is not None, hasval=False, LV=B,
+                   withmap=bool(withmap), start="evalbatching")
+        out.append({"tid": tid, "cfg": cfg, "events": events, "ndev": ndev, "withmap": bool(withmap)})
     return out
 
 
@@ -128,6 +207,47 @@ def main(tier):
             ev = t["events"][v[1] - 1]
             chk.report({"what": "ml.train trace rejected: " + v[2], "event_index": v[1], "script": t["spec"],
                         "event": {k: ev[k] for k in ev if k != "obs"}}, payload={"trace": {"cfg": t["cfg"], "events": t["events"], "train": True}})
+    # ---- evaluation in batches: design (MC_EvalLoop) and recorded map_loss_in_batches / map_plus_loss_in_batches runs ----
+    ejobs = [dict(module_path="mc/MC_EvalLoop.tla", cfg=tlc.make_cfg(constants=c, invariants=["EvalInv"], properties=["Terminates"], specification="Spec"),
+                  constants=c, coverage=True, workers=4, timeout=3000)
+             for c in ([dict(L=4, B=2, WithMap=True), dict(L=5, B=2, WithMap=False), dict(L=4, B=3, WithMap=True)] if tier == "quick" else
+                       [dict(L=4, B=2, WithMap=True), dict(L=5, B=2, WithMap=False), dict(L=4, B=3, WithMap=True), dict(L=6, B=3, WithMap=True), dict(L=6, B=2, WithMap=False)])]
+    for r in tlc.run_many(ejobs, parallel=3):
+        chk.add_tlc(r, vacuity_actions=("EvalBatches", "DoEvalStep", "EvalReturn"))
+        if not r.ok:
+            chk.spec_violation(r, "evaluation-in-batches design invariant fails in the specification")
+    eitems, etid = [], 20000
+    for L in range(1, (7 if tier == "quick" else 11)):
+        for B in range(1, L + 1):
+            for ndev in [d for d in (1, 2, 4) if B % d == 0]:
+                for keyseed in [None, rng.randint(0, 10 ** 6)] + ([rng.randint(0, 10 ** 6)] if tier == "thorough" else []):
+                    etid += 1
+                    eitems.append((etid, L, B, keyseed, ndev, etid % 2 == 0))
+    old_flags = os.environ.get("XLA_FLAGS")
+    os.environ["XLA_FLAGS"] = "--xla_force_host_platform_device_count=4" + ((" " + old_flags) if old_flags else "")
+    try:
+        etraces = [t for ch in core.pmap(eval_chunk, core.shards(eitems, 12), crash_value=[]) for t in ch]
+    finally:
+        if old_flags is None:
+            del os.environ["XLA_FLAGS"]
+        else:
+            os.environ["XLA_FLAGS"] = old_flags
+    if len(etraces) < len(eitems) // 2:
+        raise RuntimeError("evaluation traces: only %d of %d recorded" % (len(etraces), len(eitems)))
+    ev_verdicts = tracelib.validate(chk, "trace/Trace_TrainLoop.tla", [{"tid": t["tid"], "cfg": t["cfg"], "events": t["events"]} for t in etraces], workers=8)
+    for t in etraces:
+        chk.evaluations += 1
+        chk.traces += 1
+        c = t["cfg"]
+        if c["keyed"] or c["L"] % c["B"] or t["ndev"] > 1:
+            chk.distinct.add(core.chash(["eval", c["L"], c["B"], c["keyed"], t["ndev"], t["withmap"]]))
+        v = ev_verdicts[t["tid"]]
+        if v[0] == "REJECT":
+            ev = t["events"][v[1] - 1]
+            chk.report({"what": "evaluation trace rejected: " + v[2], "L": c["L"], "B": c["B"], "keyed": c["keyed"], "ndev": t["ndev"],
+                        "withmap": t["withmap"], "event": {k: ev[k] for k in ev if k != "obs"}},
+                       payload={"trace": {"cfg": t["cfg"], "events": t["events"], "train": True}})
+    chk.samples.append({"cfg": etraces[3]["cfg"], "events": [{k: e[k] for k in e if k != "obs"} for e in etraces[3]["events"]]})
     chk.exhaustive = True
     chk.extra["bounds"] = {"L<=": maxL, "keys": nkeys, "device_counts": [1, 2, 3, 4]}
     chk.assumptions = ["TLC/SANY/Json trusted", "the sandbox has one CPU device; device counts are exercised through a list of "
